@@ -258,6 +258,33 @@ _LOOP_CODES = {
     "Implaccepted-function-left-waiting": "queue non-empty, wake-up channel empty, loop blocked in select, nobody about to wake it",
     "Implapi-call-panicked": "an API call panicked", "Implgoroutine-left-after-terminate": "a timer/interval goroutine outlived Terminate()",
     "Impljobs-left-after-terminate": "loop.jobs not empty when Terminate returned", "Impljobs-index-broken": "jobs[k].idx != k",
+    # free-running phase (no parking, no model): oracles on the observations alone
+    "Implfree-callbacks-overlap": "free run: a callback began while another was executing",
+    "Implfree-callback-while-stopped": "free run: a callback was executing between the return of Stop()/Run() and the next start",
+    "Implfree-accepted-not-run-once": "free run: a function for which RunOnLoop returned true did not run exactly once by the end of Terminate()",
+    "Implfree-fifo-broken": "free run: functions of one submitter ran out of submission order",
+    "Implfree-refused-ran": "free run: a function for which RunOnLoop returned false ran",
+    "Implfree-accepted-function-never-ran": "free run: a function accepted by a running loop did not run within 3 s",
+    "Implfree-timeout-ran-twice": "free run: a timeout callback ran twice",
+    "Implfree-ran-after-clear": "free run: a timeout ran although a callback had cleared it before it fired",
+    "Implfree-stop-count-wrong": "free run: Stop() returned a number different from the timers set and not cleared",
+    "Implfree-run-did-not-return-at-quiescence": "free run: Run() did not return although no live work existed (after Terminate)",
+    "Implfree-run-did-not-return": "free run: Run() with only short timeouts pending did not return",
+    "Implfree-stop-did-not-return": "free run: Stop() did not return within 4 s",
+    "Implfree-run-did-not-return-after-stop": "free run: Run() still blocked 3 s after Stop() returned",
+    "Implfree-terminate-did-not-return": "free run: Terminate() did not return within 5 s",
+    "Implfree-goroutine-left-after-terminate": "free run: a timer/interval goroutine outlived Terminate()",
+    "Implfree-api-call-panicked": "free run: an API call panicked",
+    "Implfree-uncleared-timeout-never-ran": "free run: a short timeout set on a loop that was started and never stopped did not run",
+}
+_FREE = {
+    "C03": ["Implfree-callbacks-overlap", "Implfree-callback-while-stopped", "Implfree-api-call-panicked"],
+    "C04": ["Implfree-accepted-not-run-once", "Implfree-fifo-broken", "Implfree-refused-ran", "Implfree-accepted-function-never-ran"],
+    "C05": ["Implfree-timeout-ran-twice", "Implfree-ran-after-clear", "Implfree-uncleared-timeout-never-ran"],
+    "C06": ["Implfree-stop-count-wrong", "Implfree-run-did-not-return-at-quiescence", "Implfree-run-did-not-return"],
+    "C07": ["Implfree-stop-did-not-return", "Implfree-run-did-not-return-after-stop", "Implfree-accepted-not-run-once", "Implfree-timeout-ran-twice",
+            "Implfree-api-call-panicked"],
+    "C08": ["Implfree-goroutine-left-after-terminate", "Implfree-terminate-did-not-return", "Implfree-ran-after-clear", "Implfree-refused-ran"],
 }
 _LOOP_TRUST = ["Go runtime: goroutine scheduling between verifPoints is controlled by parking every thread at every point and granting one at a time; "
                "stability (all threads parked or blocked) is read from runtime.Stack goroutine states",
@@ -273,15 +300,20 @@ _LOOP_NOTE = ("Proof is about Model/Loop.v, a transition system over the 33 veri
 
 
 def _loop(profile, level_text, rule, relevant, assumptions):
+    pid = {"overlap": "C03", "fifo": "C04", "timers": "C05", "count": "C06", "stop": "C07", "terminate": "C08"}[profile]
     return dict(harness="loop", module="Cases.LoopCheck", env={"VERIF_PROFILE": profile}, overlay=True, shard=30, codes=_LOOP_CODES,
-                relevant=set(relevant) | {"Implhost-process-died"}, level_text=level_text, level_note=_LOOP_NOTE, rule=rule, trusted=_LOOP_TRUST,
+                relevant=set(relevant) | set(_FREE[pid]) | {"Implhost-process-died"}, level_text=level_text, level_note=_LOOP_NOTE, rule=rule, trusted=_LOOP_TRUST,
                 assumptions=assumptions, harness_timeout=1500)
 
 
 _LOOP_RULE = ("scenario = 1-3 submitter goroutines (RunOnLoop/SetTimeout/SetInterval/ClearTimeout/ClearInterval%s) x a controller "
               "(Start/Stop/Run/Terminate cycles, real-time idling) x callback programs nested to depth 2 (RunOnLoop, setTimeout/setInterval/"
               "setImmediate, clear* with matching and non-matching handles, throw%s), run under a seeded PCT-style scheduler that grants one parked "
-              "thread at a time; every run ends with Start, idle, Terminate; non-trivial = at least one pre-emption; distinct by hash of the trace")
+              "thread at a time; every run ends with Start, idle, Terminate; non-trivial = at least one pre-emption; distinct by hash of the trace. "
+              "Second phase (search for failing inputs only, no model): free-running scenarios under the Go scheduler with yields/sleeps injected at "
+              "the points - lifecycle races, bursts of >1024 queued functions with submissions during later batches, exact Stop() counts over "
+              "timers that cannot expire (incl. immediates clearing themselves), Stop() from another goroutine during Run(), timeouts that expire "
+              "while the loop is busy/stopped and are cleared before delivery, then Terminate()")
 
 PROPS["C03"] = _loop("overlap",
     "C03_single_owner / C03_stopped_no_run_thread / C03_work_needs_owner / C03_none_while_stopped / C03_stop_returns_stopped / "
